@@ -560,7 +560,7 @@ double Find_Root(std::function<double(double)> func, double xLeft, double xRight
 		for(int i = 0; i < Max_Iterations; i++)
 		{
 			// Mid point
-			double x3 = (x1 + x2) / 2.0;
+			double x3 = 0.5 * x1 + 0.5 * x2;	// halving first: the sum of two huge ends of one sign may exceed the largest double
 
 			double f3 = func(x3);
 			// New point
